@@ -109,6 +109,14 @@ def gen_table(rng, n_enums, big=False):
     if not recs:
         # without records and without fields= the table has a dummy column only
         pass
+    if rng.random() < 0.05:
+        # all columns have an application field type with a palette of its own; the titles hold numbers / keywords
+        spec["own_palette_cols"] = True
+        spec["titles"] = {f: rng.choice([["N", 2024], [None, "x"], ["Year", 2024, True], "plain"]) for f in fields}
+        cols = [f + rng.choice(["", ":1-12", ":3"]) for f in rng.sample(fields, rng.randint(1, len(fields)))]
+        if rng.random() < 0.6:
+            spec["fmt"] = ",".join(cols)
+        return spec
     if "status" in fields:
         spec["types"] = {"status": rng.randrange(n_enums)}
     if len(recs) >= 8 and rng.random() < 0.25:
